@@ -802,6 +802,28 @@ def complex_comparam_from_xml(order, values):
 
 
 
+@harness(props=["C15"], strength="E",
+         family=lambda t, s: [{"layer": k} for k in ("PROTOCOL", "FUNCTIONAL-GROUP", "BASE-VARIANT", "ECU-VARIANT")],
+         functions=[ProtocolRaw.from_et, FunctionalGroupRaw.from_et, BaseVariantRaw.from_et, ComparamInstance.from_et],
+         covers=["parsed"], crosscheck=False)
+def comparam_refs_of_a_layer_are_those_written_in_the_document(layer):
+    """the COMPARAM-REFs of a layer read from XML are the ones the document holds, in document order: referenced
+    parameter, value and - the key of the override rule - the PROTOCOL-SNREF exactly as written (none when omitted)"""
+    from odxtools.diaglayers.ecuvariantraw import EcuVariantRaw
+    cls = {"PROTOCOL": ProtocolRaw, "FUNCTIONAL-GROUP": FunctionalGroupRaw, "BASE-VARIANT": BaseVariantRaw,
+           "ECU-VARIANT": EcuVariantRaw}[layer]
+    xml = f'''<{layer} ID="L.uds"><SHORT-NAME>uds</SHORT-NAME><COMPARAM-REFS>
+<COMPARAM-REF ID-REF="cp.a" DOCREF="cps" DOCTYPE="COMPARAM-SUBSET"><SIMPLE-VALUE>5</SIMPLE-VALUE></COMPARAM-REF>
+<COMPARAM-REF ID-REF="cp.a" DOCREF="cps" DOCTYPE="COMPARAM-SUBSET"><SIMPLE-VALUE>6</SIMPLE-VALUE><PROTOCOL-SNREF SHORT-NAME="kwp"/></COMPARAM-REF>
+<COMPARAM-REF ID-REF="cp.b" DOCREF="cps" DOCTYPE="COMPARAM-SUBSET"><SIMPLE-VALUE>7</SIMPLE-VALUE><PROT-STACK-SNREF SHORT-NAME="stack"/></COMPARAM-REF>
+</COMPARAM-REFS><COMPARAM-SPEC-REF ID-REF="cps" DOCREF="cps" DOCTYPE="COMPARAM-SPEC"/></{layer}>'''
+    raw = cls.from_et(ElementTree.fromstring(xml), LFR)
+    H.cover("parsed")
+    H.check("C15:comparam-refs-carry-the-protocol-qualifier-written-in-the-document",
+            [(c.spec_ref.ref_id, c.value, c.protocol_snref, c.prot_stack_snref) for c in raw.comparam_refs] ==
+            [("cp.a", "5", None, None), ("cp.a", "6", "kwp", None), ("cp.b", "7", None, "stack")])
+
+
 # a layer may reference communication parameters of several comparam subsets; identical local ids in different subsets
 # name different specifications (the reference carries the document fragment)
 @harness(props=["C15"], strength="B", family=lambda t, s: [{"order": o} for o in ("can-first", "doip-first")],
